@@ -13,7 +13,8 @@ Wrong(c) ==
       o == c.out   a == c.ans   g == c.got   inp == c.inp
   IN
   {<<"ambiguous", i>> : i \in {i \in 1..nc : lin(i) /\ ~Unambiguous(c.ocons[i], c.rows, c.vars, n0)}}
-  \cup {<<"noimage", i>> : i \in {i \in 1..nc : lin(i) /\ im(i).kind = "none"}}
+  \* (a row without finite bounds is not posted: it has no image and carries no demand)
+  \cup {<<"noimage", i>> : i \in {i \in 1..nc : lin(i) /\ im(i).kind = "none" /\ ~(c.ocons[i].lb = -Inf /\ c.ocons[i].ub = Inf)}}
   \* exactly one value per original variable / constraint
   \cup (IF o.hasPrimal /\ Len(o.primal) # n0 THEN {<<"nprimal", Len(o.primal)>>} ELSE {})
   \cup (IF o.hasDual /\ Len(o.dual) # nc THEN {<<"ndual", Len(o.dual)>>} ELSE {})
